@@ -170,6 +170,8 @@ CHECKS["C06"] = dict(
         ob("VH_C06_eager", dict(MAXB=1), covers=["eager-request", "fin"], bounds="requests issued the moment a STAT arrives (any subset) or after the end marker (any subset), over a transport whose SendMsg returns after the peer reacted; files <=1 byte"),
         ob("VH_C06_sender", dict(MAXB=0, NREQ=2, OPENERR=1), Q, covers=["valid-request", "invalid-request", "fin", "open-fails"], bounds="empty files, any subset of the announced files can no longer be opened when requested, 2 requests (an id is used up even if its file could not be opened)"),
         ob("VH_C06_burst", dict(MAXB=1, NREQ=2), Q, covers=["valid-burst", "invalid-burst", "fin"], bounds="files <=1 byte, 1..2 requests sent back to back, DATA sorted by id afterwards"),
+        ob("VH_C06_flood", dict(N=140, SCHEDREV=1), Q, covers=["done"], bounds="the same flood under the youngest-runnable-first schedule (the sender's request loop runs ahead of its listing)", max_steps=60000000),
+        ob("VH_C06_flood", dict(N=140), Q, covers=["done"], bounds="140 one-byte files requested the moment their STAT arrives (more outstanding requests than the 128-slot pipeline and the 4 workers hold) while the listing continues and every source read waits for the end of the listing", max_steps=60000000),
         ob("VH_C06_sender", dict(MAXB=1, NREQ=2, OPENERR=1), T, covers=["valid-request", "invalid-request", "fin", "open-fails"], bounds="files <=1 byte, unopenable files, 2 requests"),
         ob("VH_C06_burst", dict(MAXB=1, NREQ=3), T, covers=["valid-burst", "invalid-burst", "fin"], bounds="files <=1 byte, 1..3 requests back to back"),
         ob("VH_C06_sender", dict(MAXB=2, NREQ=3), T, covers=["valid-request", "invalid-request", "fin", "hardlink-entry"], bounds="files <=2 bytes, 3 requests"),
